@@ -89,6 +89,7 @@ def check(case, rec):
         # the documented manual route to a trough-centred table: analyse -sig peak-centred, then rename_extrema_df('trough', ...)
         import warnings
         case = dict(case, center='trough')
+        pipeline.expected_cycles(case, x)             # the trough-centred analysis has its own precondition
         kw = gen.cf_kwargs(dict(case, center='peak'))
         with warnings.catch_warnings():
             warnings.simplefilter('ignore')
